@@ -1,9 +1,64 @@
 import QecVerif.Model.DriverLattice
+import QecVerif.Model.Lattice.RotatedToric
 namespace Qec.Drv
 open Qec Qec.Wire
 
-/-- driver ops of the rotatedtoric family (filled in by the family's model) -/
+/-- driver ops of the rotatedtoric family; sizes are `rows cols`, indices are `x,y` -/
 def rotatedtoric : List String → Option String
+  | ["ctor", r, c] => do
+      let r ← parsePyVal? r; let c ← parsePyVal? c; pure (showCtor (RotatedToric.ctor r c))
+  | ["nkd", r, c] => do
+      let r ← parseInt? r; let c ← parseInt? c
+      let (n, k, d) := RotatedToric.nkd r c; pure s!"{n} {k} {d}"
+  | ["stabs", r, c] => do
+      let r ← parseInt? r; let c ← parseInt? c; pure (showMat (RotatedToric.stabilizers r c))
+  | ["lx", r, c] => do let r ← parseInt? r; let c ← parseInt? c; pure (showMat (RotatedToric.logicalXs r c))
+  | ["lz", r, c] => do let r ← parseInt? r; let c ← parseInt? c; pure (showMat (RotatedToric.logicalZs r c))
+  | ["plaqidx", r, c] => do
+      let r ← parseInt? r; let c ← parseInt? c; pure (showIdxList (RotatedToric.plaquetteIndices r c))
+  | ["bounds", r, c] => do
+      let r ← parseInt? r; let c ← parseInt? c; pure (showIdx (RotatedToric.maxX c, RotatedToric.maxY r))
+  | ["flat", r, c, i] => do
+      let r ← parseInt? r; let c ← parseInt? c; let i ← parseIdx? i
+      pure (if RotatedToric.inBounds r c i.1 i.2 then toString (RotatedToric.flatten r c i.1 i.2)
+            else "AssertionError")
+  | ["kinds", i] => do
+      let i ← parseIdx? i
+      pure s!"{showBool (RotatedToric.isXPlaquette i.1 i.2)}{showBool (RotatedToric.isZPlaquette i.1 i.2)}"
+  | ["inb", r, c, i] => do
+      let r ← parseInt? r; let c ← parseInt? c; let i ← parseIdx? i
+      pure (showBool (RotatedToric.inBounds r c i.1 i.2))
+  | ["mod", r, c, i] => do
+      let r ← parseInt? r; let c ← parseInt? c; let i ← parseIdx? i
+      pure (showIdx (RotatedToric.modIndex r c i))
+  | ["site", r, c, op, i] => do
+      let r ← parseInt? r; let c ← parseInt? c; let i ← parseIdx? i
+      let op ← (match op.toList with | [ch] => P1.ofChar? ch | _ => none)
+      pure (showBits (RotatedToric.site r c op (RotatedToric.identity r c) i))
+  | ["plaq", r, c, i] => do
+      let r ← parseInt? r; let c ← parseInt? c; let i ← parseIdx? i
+      pure (showBits (RotatedToric.plaquette r c (RotatedToric.identity r c) i.1 i.2))
+  | ["trans", r, c, a, b] => do
+      let r ← parseInt? r; let c ← parseInt? c; let a ← parseIdx? a; let b ← parseIdx? b
+      match RotatedToric.translation r c a b with
+      | .ok t => pure (showIdx t) | .error _ => pure "IndexError"
+  | ["path", r, c, a, b] => do
+      let r ← parseInt? r; let c ← parseInt? c; let a ← parseIdx? a; let b ← parseIdx? b
+      pure (showExB (RotatedToric.path r c (RotatedToric.identity r c) a b))
+  | ["pathsites", r, c, a, b] => do
+      let r ← parseInt? r; let c ← parseInt? c; let a ← parseIdx? a; let b ← parseIdx? b
+      match RotatedToric.pathIndices r c a b with
+      | .ok l => pure (showIdxList l) | .error _ => pure "IndexError"
+  | ["pathsitescf", r, c, a, b] => do
+      let r ← parseInt? r; let c ← parseInt? c; let a ← parseIdx? a; let b ← parseIdx? b
+      match RotatedToric.pathIndicesClosed r c a b with
+      | .ok l => pure (showIdxList l) | .error _ => pure "IndexError"
+  | ["s2p", r, c, s] => do
+      let r ← parseInt? r; let c ← parseInt? c; let s ← parseBits? s
+      pure (showIdxList (RotatedToric.syndromeToPlaquettes r c s))
+  | ["mates", r, c, m] => do
+      let r ← parseInt? r; let c ← parseInt? c; let m ← parsePairs? m
+      pure (showExB (RotatedToric.applyMates r c m))
   | _ => none
 
 end Qec.Drv
